@@ -54,13 +54,18 @@ Definition skip_wrapper_args (base : str) (ts : list str) : list str :=
   skipn (assoc_nat base WRAPPER_OPERANDS) (skip_wrapper_opts (assoc_flags base WRAPPER_FLAGS_WITH_ARG) ts).
 
 (* _is_version_or_help *)
+(* _SUBCOMMAND_WORD: [A-Za-z][A-Za-z0-9_:-]* - the words allowed between the command and a trailing help flag *)
+Definition sub_start (c : N) : bool := in_ranges c [(65, 90); (97, 122)].
+Definition sub_char (c : N) : bool := sub_start c || in_ranges c [(48, 57)] || N.eqb c 95 || N.eqb c 58 || N.eqb c 45.
+Definition subcommand_word (t : str) : bool := match t with c :: r => sub_start c && forallb sub_char r | [] => false end.
 Definition is_help (tokens : list str) : bool :=
   match tokens with
   | [] | [_] => false
   | [_; t1] => mem_str t1 HELP_WORDS || mem_str t1 HELP_FLAGS2 || mem_str t1 HELP_TRAILING
   | _ :: _ :: _ =>
       (Nat.leb (length tokens) 4) &&
-      match rev tokens with l :: _ => mem_str l HELP_TRAILING | [] => false end
+      match rev tokens with l :: _ => mem_str l HELP_TRAILING | [] => false end &&
+      forallb subcommand_word (removelast (tl tokens))
   end.
 
 Section Ladder.
@@ -96,7 +101,9 @@ Section Ladder.
     else if mem_str base SIMPLE_SAFE then Allow
     else
       let h := handler c tokens in
-      let delegates := match h with Some r => match h_action r with HDelegate => true | _ => false end | None => false end in
+      (* "delegates": the handler launches an inner command, or found a file the command writes - `CMD ... -h` is then
+         not a help query (sh -c 'cmd' -h, sort -o f -h) *)
+      let delegates := match h with Some r => match h_action r with HDelegate => true | _ => nonempty (h_targets r) end | None => false end in
       let own_help := match h with Some r => h_handles_help r | None => false end in
       if is_help tokens && negb delegates && negb own_help then Allow
       else match h with
